@@ -87,6 +87,18 @@ def run(ctx):
                 npos += 1
         st.append({"k": "label", "nm": "fin"})
         R.add(st)
+        # position 6: `$` inside an EQU body denotes the address of the EQU statement, also when the body mentions a name
+        # that is only defined further down and the name is used at another address
+        st = [{"k": "org", "v": 0x7c00}, {"k": "data", "mn": "DB", "items": [{"t": "e", "e": {"o": "n", "v": 1}}, {"t": "e", "e": {"o": "n", "v": 2}}, {"t": "e", "e": {"o": "n", "v": 3}}]}]
+        for j, t in enumerate([t for t in chunk if abs(t["v"]) < 1000000000][:4]):      # (TLC integers: value + address must stay inside int32)
+            e = styled(t["e"], rng)
+            st.append({"k": "equ", "nm": "XF%d" % j, "e": {"o": "+", "a": {"o": "id", "nm": "YF%d" % j}, "b": {"o": "$"}}})
+            st.append({"k": "equ", "nm": "YF%d" % j, "e": e, "text": render.expr_min(e)})
+            st.append({"k": "data", "mn": "DB", "items": [{"t": "e", "e": {"o": "n", "v": 0}}, {"t": "e", "e": {"o": "n", "v": 0}}]})
+            st.append({"k": "data", "mn": "DD", "items": [{"t": "e", "e": {"o": "id", "nm": "XF%d" % j}}]})
+            npos += 1
+        st.append({"k": "label", "nm": "fin"})
+        R.add(st)
     for t in div0:
         R.add([{"k": "data", "mn": "DD", "items": [{"t": "e", "e": t["e"], "text": render.expr_min(t["e"])}]}, {"k": "label", "nm": "fin"}])
     R.run()
